@@ -78,6 +78,7 @@ type fnRes struct {
 	obs        map[ssa.Instruction]map[ssa.Value]aval
 	ret        aval
 	retF       fval
+	retN       map[int]aval // a function with several results: the range of each integer result
 	exitCells  map[string]aval
 	weak       map[string]aval
 	callArgs   map[*ssa.Function][]aval
@@ -98,6 +99,7 @@ type rangeEngine struct {
 	fieldOverride map[string]aval
 	retSum        map[*ssa.Function]aval
 	retFSum       map[*ssa.Function]fval
+	retNSum       map[*ssa.Function]map[int]aval
 	retOverride   map[string]aval
 	retFOverride  map[string]fval
 	siteOverride  map[string]aval // "caller|callee"
@@ -138,7 +140,7 @@ func (c *Ctx) ranges() *rangeEngine {
 	if c.rng != nil {
 		return c.rng
 	}
-	e := &rangeEngine{c: c, fieldInv: map[string]aval{}, fieldOverride: map[string]aval{}, retSum: map[*ssa.Function]aval{}, retFSum: map[*ssa.Function]fval{},
+	e := &rangeEngine{c: c, fieldInv: map[string]aval{}, fieldOverride: map[string]aval{}, retSum: map[*ssa.Function]aval{}, retFSum: map[*ssa.Function]fval{}, retNSum: map[*ssa.Function]map[int]aval{},
 		retOverride: map[string]aval{}, retFOverride: map[string]fval{}, siteOverride: map[string]aval{}, paramSum: map[*ssa.Function][]aval{},
 		paramOverride: map[string]map[int]aval{}, closedWorld: map[string]bool{}, searchHit: map[string]bool{}, res: map[*ssa.Function]*fnRes{},
 		tabHull: map[string]aval{}, tabLen: map[string]int64{}, mutable: map[string]bool{}}
@@ -310,7 +312,25 @@ func (e *rangeEngine) solve() {
 		if count[fn] > 25 {
 			ret = widenVal(e.retSum[fn].orBot(), joinVal(e.retSum[fn].orBot(), ret))
 		}
-		if !eqVal(ret, e.retSum[fn].orBot()) || !eqF(res.retF, e.retFSumOr(fn)) {
+		changedN := false
+		for i, v := range res.retN {
+			old := botVal()
+			if m := e.retNSum[fn]; m != nil {
+				old = m[i].orBot()
+			}
+			nv := v
+			if count[fn] > 25 {
+				nv = widenVal(old, joinVal(old, v))
+			}
+			if !eqVal(nv, old) {
+				if e.retNSum[fn] == nil {
+					e.retNSum[fn] = map[int]aval{}
+				}
+				e.retNSum[fn][i] = nv
+				changedN = true
+			}
+		}
+		if !eqVal(ret, e.retSum[fn].orBot()) || !eqF(res.retF, e.retFSumOr(fn)) || changedN {
 			e.retSum[fn] = ret
 			e.retFSum[fn] = res.retF
 			for c := range callers[fn] {
@@ -1238,7 +1258,13 @@ func (a *fnAnalysis) block(b *ssa.BasicBlock, st *rstate) {
 		case *ssa.Call:
 			a.call(st, x)
 		case *ssa.Return:
-			for _, r := range x.Results {
+			for i, r := range x.Results {
+				if isIntType(r.Type()) && len(x.Results) > 1 {
+					if a.res.retN == nil {
+						a.res.retN = map[int]aval{}
+					}
+					a.res.retN[i] = joinVal(a.res.retN[i].orBot(), a.get(st, r))
+				}
 				if isIntType(r.Type()) && len(x.Results) == 1 {
 					a.res.ret = joinVal(a.res.ret, a.get(st, r))
 				} else if _, isSlice := r.Type().Underlying().(*types.Slice); isSlice && len(x.Results) == 1 {
@@ -1285,6 +1311,19 @@ func (a *fnAnalysis) extract(st *rstate, x *ssa.Extract) aval {
 	case *ssa.Next:
 		if t.IsString && x.Index == 1 {
 			return rangeVal(0, pinf)
+		}
+	case *ssa.Call:
+		// one result of a library function that returns several
+		if callee := t.Common().StaticCallee(); callee != nil && callee.Blocks != nil {
+			a.res.retsUsed[callee] = true
+			if m := a.e.retNSum[callee]; m != nil {
+				if v, ok := m[x.Index]; ok {
+					return v
+				}
+			}
+			if inlineLibrary(callee) {
+				return botVal() // not analysed yet: the fixpoint comes back here
+			}
 		}
 	case *ssa.Lookup:
 		if x.Index == 0 {
